@@ -226,18 +226,18 @@ def matrix_cases(tier, seed, stores=("local",)):
                 d.update({"position": pos, "import_form": form, "layout": layout})
                 emit("import:%s/%s@%s" % (form, layout, pos), p0, p1, d)
     # D7: higher-order reference, lambda, nested def, class/method
-    for variant in ("ref", "lambda_call", "nested_def", "nested_def_var", "nested_def_helper", "nested_def_helper:default", "nested_def_helper:lambda_default", "nested_def_var:default", "nested_def_var:lambda_default", "nested_def_var:shadow", "method_const", "method_var", "method_callee", "cls_attr", "cls_attr_other_module", "indent"):
+    for variant in ("ref", "ref_kw", "lambda_call", "nested_def", "nested_def_var", "nested_def_helper", "nested_def_helper:default", "nested_def_helper:lambda_default", "nested_def_var:default", "nested_def_var:lambda_default", "nested_def_var:shadow", "method_const", "method_var", "method_callee", "cls_attr", "cls_attr_other_module", "indent"):
         for pos in ("A", "main", "C"):
             p0 = base_program("pm%d" % k)
             k += 1
             ids = p0["_ids"]
             f = p0["fns"][ids[pos]]
             mod = f["module"]
-            if variant == "ref":
+            if variant in ("ref", "ref_kw"):
                 tgt = gen.add_fn(p0, mod, "hof_target", const=40)
                 p0["order"][mod].remove(("fn", tgt))
                 p0["order"][mod].insert(0, ("fn", tgt))
-                f["stmts"].append(gen.s_ref(tgt))
+                f["stmts"].append(gen.s_ref(tgt, kw=variant == "ref_kw"))
                 p1, d = gen.e_set_const(p0, tgt)
             elif variant == "lambda_keep":
                 if pos == "C":
